@@ -363,6 +363,28 @@ def main():
     cases.append(("probe-sub-monitor-terminate", pp, cp.program_src(pp), dict(tab=[], perms=[], max_steps=6, timestep=1), None))
     probe_idx = len(cases) - 1
 
+    # fixed probe outside the modelled fragment: `terminate when` / `record` executed by the setup block of a
+    # sub-scenario at run time (documented: like in the top-level scenario)
+    sub_probe_src = """import verif_c12_log as L
+scenario S1():
+    setup:
+        terminate when L.c(0)
+        record L.r(5) as r5
+    compose:
+        while True:
+            wait
+scenario Main():
+    setup:
+        ego = new Object at (0, 0), with vid 0
+    compose:
+        do S1()
+        L.ev("S", 0, 1)
+        wait
+"""
+    cases.append(("probe-sub-scenario-setup", cp.empty_program(1), sub_probe_src,
+                  dict(tab=[[False, False, True, True, True, True, True]], perms=[], max_steps=6, timestep=1), "subprobe"))
+    sub_probe_idx = len(cases) - 1
+
     # group runs by source so that each program is compiled once
     by_src = {}
     for idx, (name, p, src, run, fe) in enumerate(cases):
@@ -377,7 +399,7 @@ def main():
     qsub = not ("runs" in pres and pres["runs"][-1]["kind"] == "scenarioComplete")
     c.cov["quirk_sub_monitor_terminate_ends_simulation"] = qsub
     _t2 = _t.time()
-    models = run_model(exe, [(cs[1], cs[3]) for cs in cases], qsub=qsub)
+    models = run_model(exe, [(cs[1], cs[3]) for cs in cases], qsub=qsub)   # (the sub-scenario-setup probe's model line is unused)
     c.cov['t_model'] = round(_t.time() - _t2, 1)
     nfail = 0
     for j in jobs:
@@ -387,6 +409,16 @@ def main():
             continue
         for i, obs in zip(j["_idxs"], res["runs"]):
             name, p, src, run, fe = cases[i]
+            if i == sub_probe_idx:
+                # documented: S1 runs steps 0,1, stops at step 2 (condition true), Main logs its mark and ends at step 3
+                good = obs["kind"] == "scenarioComplete" and obs.get("time") == 3 and ["S", 0, 1] in obs["events"]
+                c.count(("subprobe",), nontrivial=True)
+                if not good:
+                    c.violation("sub-scenario-setup", "`terminate when` / `record` in the setup block of a sub-scenario do not work as in the top-level scenario: "
+                                f"documented end at step 3 (scenarioComplete), got {obs['kind']} at {obs.get('time')}",
+                                dict(src=src, run=run, impl={k: obs.get(k) for k in ("kind", "reason", "time", "records")}, events=obs["events"],
+                                     statements_in_sub_scenario_setup=True))
+                continue
             mod = models[i]
             classes = {e[0] for e in obs["events"]}
             nontrivial = obs.get("time", 0) >= 1 and len(classes) >= 3
